@@ -48,3 +48,20 @@ func TestDispatch(t *testing.T) {
 	}
 	fmt.Printf("SCENARIOS-RUN %d\n", n)
 }
+
+// TestConfig loads the configuration documents of $VERIF_IN through the real loader.
+func TestConfig(t *testing.T) {
+	in, out := os.Getenv("VERIF_IN"), os.Getenv("VERIF_OUT")
+	if in == "" || out == "" {
+		t.Skip("VERIF_IN / VERIF_OUT not set")
+	}
+	tmp := os.Getenv("VERIF_TMP")
+	if tmp == "" {
+		tmp = t.TempDir()
+	}
+	n, err := runConfigFile(in, out, tmp)
+	if err != nil {
+		t.Fatalf("config driver: %v (after %d cases)", err, n)
+	}
+	fmt.Printf("SCENARIOS-RUN %d\n", n)
+}
